@@ -451,6 +451,11 @@ def run_batch(prop, tier, n_units=None, workers=None, verif_seed=None):
             continue
         seen_known.add(kf["description"])
         print(f"KNOWN-FINDING: property={prop} {kf['description']} (replay={path})")
+    # every listed finding of the property is named, also when this batch did not run into it
+    for kf in known:
+        if kf["property"] == prop and kf["description"] not in seen_known:
+            print(f"KNOWN-FINDING: property={prop} {kf['description']} "
+                  f"(listed; not encountered in this run of {units_done} units)")
     for vj, path in violations_out:
         print(f"VIOLATION property={prop} replay={path}")
         print(f"  oracle={vj['oracle']} fingerprint={json.dumps(vj['fingerprint'], sort_keys=True)}")
